@@ -20,6 +20,8 @@ Round 7 adds two case families (harness/lib_c03x.py; a case of a family carries 
                   of the batches, the shard states (different key sets) merged by ChainedRunner / TransformRunner /
                   AGGREGATE-mode runner; oracle: brute-force group-by over the whole data + equality with the unsharded
                   run; model: Model/PipeAggShard.lean (driver "pipeaggshard"), theorems C03_shards_sliced*.
+  fam = "pool"    {items: [{sub, k, workers}]}: the same sliced pipelines through orchestrate.sharded_pipelines_as_iterator over a
+                  worker pool on harness/fakecourier (harness/lib_c16x.py, run in its own process) — the C16 path of the same merge.
 """
 import collections
 import copy
@@ -70,7 +72,10 @@ RULE = ('corpus (witness cases of F18 and F-C03-fuse) first; then random pipelin
         'sorted by the slice feature or mixed) x any partition of the batches into 1..5 shards (consecutive, round robin, '
         'shuffled, empty shards, make(shard=) / data_source.shard) x merge by ChainedRunner / TransformRunner / AGGREGATE runner '
         '/ two aggregating stages x states as list / generator / iterator x strict_states_cnt x batches as list / one-shot '
-        'iterator; enforced classes: key absent from the first / a middle / the last shard, disjoint key sets, empty (first) shard')
+        'iterator; enforced classes: key absent from the first / a middle / the last shard, disjoint key sets, empty (first) shard.  '
+        'POOL (harness/lib_c16x.py, own process) — the same sliced pipelines through orchestrate.sharded_pipelines_as_iterator over a '
+        'WorkerPool of 1..3 fakecourier workers, 1..6 shards (merge of a generator of states with strict_states_cnt on the master thread): '
+        '6 pipelines per quick run, exactly one AggregateResult, same oracle and model')
 
 TIMEOUT = float(os.environ.get('C03_TIMEOUT', '20'))
 
@@ -293,7 +298,7 @@ def gen_cases(ctx):
       yield case
   def fam_counted(it):
     for case in it:
-      (X.sz_counts if case['fam'] == 'sizes' else X.sl_counts)(ctx, case)
+      {'sizes': X.sz_counts, 'sliced': X.sl_counts, 'pool': X.pool_counts}[case['fam']](ctx, case)
       yield case
   corpus = ctx.corpus()
   yield from counted(c for c in corpus if not c.get('fam'))
@@ -302,6 +307,7 @@ def gen_cases(ctx):
   # the families are dealt between the random cases (long streams must not sit in one chunk of the pool)
   fams = X.gen_sliced(ctx) + X.gen_sizes(ctx)
   ctx.rng.shuffle(fams)
+  fams = X.gen_pool(ctx) + fams          # the worker-pool case first: its process starts early
   fams = iter(fam_counted(fams))
   for case in counted(gen_random(ctx)):
     yield case
@@ -342,6 +348,9 @@ _OBS_COV = {}
 def run_fam(case):
   """a case of a round-7 family: one request to the child process (hard timeout)"""
   global _HANGS
+  if case['fam'] == 'pool':
+    from harness import lib_c16x
+    return lib_c16x.run(case['items'], timeout=TIMEOUT)
   o = L.child().run(case, case['strat'], TIMEOUT if _HANGS == 0 else min(TIMEOUT, 5.0))
   if o.get('hang'):
     _HANGS += 1
@@ -457,6 +466,8 @@ def failures(case, obs):
 
 
 def fam_oracle(case, o):
+  if case['fam'] == 'pool':
+    return X.pool_oracle(case, o)
   if o.get('err') == 'ChildDied':
     return f"[{case['fam']}] the process running the strategy died"
   return X.sz_oracle(case, o) if case['fam'] == 'sizes' else X.sl_oracle(case, o)
@@ -488,6 +499,8 @@ def finding(case, what):
 
 
 def fam_nontrivial(case, o):
+  if case['fam'] == 'pool':
+    return any((x.get('merged') or {}).get('err') is None and len((x.get('merged') or {}).get('result', [])) >= 3 for x in o)
   if case['fam'] == 'sizes':
     big = max(X.constants() or [0])
     ob = o.get('obs') or {}
@@ -518,6 +531,8 @@ def model_requests(case):
     return X.sz_model_requests(case, None)
   if case.get('fam') == 'sliced':
     return X.sl_model_requests(case)
+  if case.get('fam') == 'pool':
+    return X.pool_model_requests(case)
   width = 2 if case['kind'] == 'dict' else 1
   by_cuts = {}
   for st in case['strategies']:
@@ -589,6 +604,8 @@ def model_obs(case, resps):
 
 def compare(impl_obs, mobs):
   if isinstance(mobs, dict) and mobs.get('fam'):
+    if mobs['fam'] == 'pool':
+      return X.pool_compare(mobs['case'], impl_obs, mobs['resps'])
     if impl_obs.get('err') == 'ChildDied':
       return None
     if mobs['fam'] == 'sizes':
@@ -653,6 +670,12 @@ def shrink(case, fails0):
 
 def _shrink_fam(case, fails0):
   cur = json.loads(json.dumps(case))
+  if case['fam'] == 'pool':
+    for item in cur['items']:              # one failing item is enough
+      c = dict(fam='pool', items=[item])
+      if fails0(c) is not None:
+        return c
+    return cur
   if case['fam'] == 'sizes':
     # the smallest boundary length that still fails with this strategy
     for n in X.size_points(X.constants()):
